@@ -48,7 +48,8 @@ func classifier(u *genfacts.Universe) func(string) (wire.TypeClass, bool) {
 		case genfacts.ClsEnum:
 			return wire.TypeClass{Enum: genfacts.Title[ti.Base]}, true
 		default:
-			return wire.TypeClass{Record: true}, true
+			k, fixed := goRecFixed(name)
+			return wire.TypeClass{Record: true, RecFixedOK: fixed, RecFixed: k}, true
 		}
 	}
 }
